@@ -174,6 +174,17 @@ func identitySpace(name, desc string, paths []*gen.Path, docs func() []*doc.Tree
 					variant{relPath(gen.Ch("*", q, p)), relPath(gen.Ch("*", q, gen.F("boolean", p))), "select"},
 				)
 			}
+			// after a FILTERED operand that rejects candidates, inside comparison and
+			// arithmetic operators (they do not save the cursor on their own)
+			for _, q := range ctxMovers() {
+				vs = append(vs,
+					variant{gen.B("=", q, &gen.Group{E: p}), gen.B("=", q, p), "evaluate"},
+					variant{gen.B("!=", q, pt), gen.B("!=", q, p), "evaluate"},
+					// P enters through boolean(): P may be a multi-step path whose node SEQUENCE repeats
+					// nodes (no property fixes count() of such a sequence; the identities are about sets)
+					variant{gen.B("+", gen.F("count", q), gen.F("number", gen.F("boolean", &gen.Group{E: p}))), gen.B("+", gen.F("count", q), gen.F("number", gen.F("boolean", p))), "evaluate"},
+				)
+			}
 			w.Sample(strs[i])
 			for _, v := range vs {
 				vsx, bsx := gen.Render(v.e), gen.Render(v.base)
@@ -221,6 +232,15 @@ func identitySpace(name, desc string, paths []*gen.Path, docs func() []*doc.Tree
 				}
 			}
 		},
+	}
+}
+
+// ctxMovers: relative filtered steps whose predicate rejects some candidates.
+func ctxMovers() []gen.Expr {
+	return []gen.Expr{
+		relPath(gen.Ch("*", relPath(gen.At("*")))), relPath(gen.Ch("node()", relPath(gen.Ch("a")))),
+		relPath(gen.Ch("*", gen.B("=", relPath(gen.Dot()), gen.S("1")))), relPath(gen.At("*", gen.B("=", relPath(gen.Dot()), gen.S("2")))),
+		relPath(gen.St("following-sibling", "*", gen.F("not", relPath(gen.Ch("*"))))),
 	}
 }
 
@@ -277,6 +297,20 @@ func c13Spaces(tier string) []*explore.Space {
 			}
 		}
 	}
+	// predicates whose LEFT operand is a filtered step (it rejects candidates, so
+	// the engine moves the shared context cursor and must put it back) and whose
+	// RIGHT operand reads the context unprotected — comparison and arithmetic
+	// operands, not union/and/or which save the cursor themselves (seeded C13-M)
+	var pm []*gen.Path
+	for _, h := range []gen.Step{gen.Dot(), gen.Ch("*"), gen.Ch("node()"), gen.St("ancestor-or-self", "node()"), gen.St("descendant", "*"), gen.DotDot(), gen.St("following-sibling", "*")} {
+		for _, l := range ctxMovers() {
+			for _, r := range []gen.Expr{relPath(gen.Dot()), relPath(gen.Ch("*")), relPath(gen.At("*")), relPath(gen.Ch("text()"))} {
+				pm = append(pm, relPath(withPred(h, gen.B("=", l, r))), relPath(withPred(h, gen.B("!=", l, r))),
+					relPath(withPred(h, gen.B("=", gen.B("+", gen.F("count", l), gen.F("count", r)), gen.N(2)))))
+			}
+		}
+	}
+	p1 = append(p1, pm...)
 	rel = append(rel, p1...)
 	idPaths := append(append([]*gen.Path{}, s1...), p1...)
 	for _, pre := range [][]gen.Step{nil, {gen.DSlash()}, {gen.Ch("*")}, {gen.Dot(), gen.DSlash()}, {gen.St("descendant", "*")}, {gen.St("following", "node()")}} {
